@@ -60,13 +60,13 @@ Proof.
   - apply wrap_rem. pose proof (wf_nth g W). lia.
 Qed.
 
-Theorem wrap_range (g : grid) (x : Z) : wf g -> 0 <= spec_wrap g x < nth g.
+Theorem wrap_range (g : grid) (x : Z) : wf g -> 0 <= spec_wrap g x < ntheta g.
 Proof. intros W. unfold spec_wrap. apply Z.mod_pos_bound. pose proof (wf_nth g W). lia. Qed.
 
-Theorem wrap_periodic (g : grid) (x m : Z) : wf g -> spec_wrap g (x + m * nth g) = spec_wrap g x.
+Theorem wrap_periodic (g : grid) (x m : Z) : wf g -> spec_wrap g (x + m * ntheta g) = spec_wrap g x.
 Proof. intros W. unfold spec_wrap. apply Z.mod_add. pose proof (wf_nth g W). lia. Qed.
 
-Theorem wrap_id (g : grid) (x : Z) : wf g -> 0 <= x < nth g -> spec_wrap g x = x.
+Theorem wrap_id (g : grid) (x : Z) : wf g -> 0 <= x < ntheta g -> spec_wrap g x = x.
 Proof. intros W H. unfold spec_wrap. apply Z.mod_small. assumption. Qed.
 
 (* ------------------------------------------------------------------ *)
@@ -80,10 +80,10 @@ Proof.
 Qed.
 
 Theorem gen_fast_index_spec (g : grid) (i j : Z) :
-  wf g -> 0 <= j < nth g -> gen_fast_index g i j = gen_index g i j.
+  wf g -> 0 <= j < ntheta g -> gen_fast_index g i j = gen_index g i j.
 Proof.
   intros W Hj. rewrite gen_index_spec by assumption. unfold gen_fast_index, spec_index.
-  rewrite (Z.mod_small j (nth g)) by assumption.
+  rewrite (Z.mod_small j (ntheta g)) by assumption.
   rewrite (wf_ncn g W), (wf_lenr g W). destruct (i <? nsc g); lia.
 Qed.
 
@@ -98,7 +98,7 @@ Proof.
   intros W Hk. unfold gen_multi_r, gen_multi_t, spec_multi, nnodes in *.
   pose proof (wf_nth g W) as Hn. pose proof (wf_nsc g W) as Hs. pose proof (wf_nr g W) as Hr.
   rewrite (wf_ncn g W), (wf_lenr g W).
-  destruct (k <? nsc g * nth g) eqn:Hc.
+  destruct (k <? nsc g * ntheta g) eqn:Hc.
   - rewrite quot_div_nonneg by lia. f_equal.
     destruct (pow2 g) eqn:Hp.
     + destruct (wf_pow2 g W Hp) as [e [He Hne]]. rewrite Hne. apply wrap_mask; assumption.
@@ -117,17 +117,17 @@ Theorem index_range (g : grid) (i j : Z) :
 Proof.
   intros W Hi. unfold spec_index, nnodes.
   pose proof (wf_nth g W) as Hn. pose proof (wf_nsc g W) as Hs.
-  pose proof (Z.mod_pos_bound j (nth g) ltac:(lia)) as Hm.
+  pose proof (Z.mod_pos_bound j (ntheta g) ltac:(lia)) as Hm.
   destruct (i <? nsc g) eqn:Hc; [apply Z.ltb_lt in Hc | apply Z.ltb_ge in Hc]; nia.
 Qed.
 
 (* circle nodes are numbered first: the split partitions 0..N-1 exactly *)
 Theorem split_partition (g : grid) (i j : Z) :
-  wf g -> 0 <= i < nr g -> (spec_index g i j < nsc g * nth g <-> i < nsc g).
+  wf g -> 0 <= i < nr g -> (spec_index g i j < nsc g * ntheta g <-> i < nsc g).
 Proof.
   intros W Hi. unfold spec_index.
   pose proof (wf_nth g W) as Hn. pose proof (wf_nsc g W) as Hs.
-  pose proof (Z.mod_pos_bound j (nth g) ltac:(lia)) as Hm.
+  pose proof (Z.mod_pos_bound j (ntheta g) ltac:(lia)) as Hm.
   destruct (i <? nsc g) eqn:Hc; [apply Z.ltb_lt in Hc | apply Z.ltb_ge in Hc]; split; intros; nia.
 Qed.
 
@@ -137,17 +137,17 @@ Proof.
   intros W [Hi Hj].
   pose proof (wf_nth g W) as Hn. pose proof (wf_nsc g W) as Hs.
   pose proof (split_partition g i j W Hi) as Hsp.
-  unfold spec_multi. unfold spec_index in *. rewrite (Z.mod_small j (nth g)) in * by assumption.
+  unfold spec_multi. unfold spec_index in *. rewrite (Z.mod_small j (ntheta g)) in * by assumption.
   destruct (i <? nsc g) eqn:Hc; [apply Z.ltb_lt in Hc | apply Z.ltb_ge in Hc].
-  - destruct (j + nth g * i <? nsc g * nth g) eqn:Hd; [|apply Z.ltb_ge in Hd; lia].
+  - destruct (j + ntheta g * i <? nsc g * ntheta g) eqn:Hd; [|apply Z.ltb_ge in Hd; lia].
     f_equal.
-    + replace (j + nth g * i) with (j + i * nth g) by lia. rewrite Z.div_add by lia.
+    + replace (j + ntheta g * i) with (j + i * ntheta g) by lia. rewrite Z.div_add by lia.
       rewrite Z.div_small by lia. lia.
-    + replace (j + nth g * i) with (j + i * nth g) by lia. rewrite Z.mod_add by lia.
+    + replace (j + ntheta g * i) with (j + i * ntheta g) by lia. rewrite Z.mod_add by lia.
       apply Z.mod_small; lia.
-  - destruct (nsc g * nth g + (i - nsc g) + (nr g - nsc g) * j <? nsc g * nth g) eqn:Hd;
+  - destruct (nsc g * ntheta g + (i - nsc g) + (nr g - nsc g) * j <? nsc g * ntheta g) eqn:Hd;
       [apply Z.ltb_lt in Hd; lia|].
-    replace (nsc g * nth g + (i - nsc g) + (nr g - nsc g) * j - nsc g * nth g)
+    replace (nsc g * ntheta g + (i - nsc g) + (nr g - nsc g) * j - nsc g * ntheta g)
       with ((i - nsc g) + j * (nr g - nsc g)) by lia.
     f_equal.
     + rewrite Z.mod_add by lia. rewrite Z.mod_small by lia. lia.
@@ -159,15 +159,15 @@ Theorem multi_range (g : grid) (k : Z) :
 Proof.
   intros W Hk. unfold spec_multi, in_grid, nnodes in *.
   pose proof (wf_nth g W) as Hn. pose proof (wf_nsc g W) as Hs. pose proof (wf_nr g W) as Hr.
-  destruct (k <? nsc g * nth g) eqn:Hc; [apply Z.ltb_lt in Hc | apply Z.ltb_ge in Hc]; cbn [fst snd].
-  - pose proof (Z.mod_pos_bound k (nth g) ltac:(lia)).
-    assert (0 <= k / nth g) by (apply Z.div_pos; lia).
-    assert (k / nth g < nsc g) by (apply Z.div_lt_upper_bound; nia).
+  destruct (k <? nsc g * ntheta g) eqn:Hc; [apply Z.ltb_lt in Hc | apply Z.ltb_ge in Hc]; cbn [fst snd].
+  - pose proof (Z.mod_pos_bound k (ntheta g) ltac:(lia)).
+    assert (0 <= k / ntheta g) by (apply Z.div_pos; lia).
+    assert (k / ntheta g < nsc g) by (apply Z.div_lt_upper_bound; nia).
     lia.
   - assert (Hl : 0 < nr g - nsc g) by nia.
-    pose proof (Z.mod_pos_bound (k - nsc g * nth g) (nr g - nsc g) Hl).
-    assert (0 <= (k - nsc g * nth g) / (nr g - nsc g)) by (apply Z.div_pos; lia).
-    assert ((k - nsc g * nth g) / (nr g - nsc g) < nth g) by (apply Z.div_lt_upper_bound; nia).
+    pose proof (Z.mod_pos_bound (k - nsc g * ntheta g) (nr g - nsc g) Hl).
+    assert (0 <= (k - nsc g * ntheta g) / (nr g - nsc g)) by (apply Z.div_pos; lia).
+    assert ((k - nsc g * ntheta g) / (nr g - nsc g) < ntheta g) by (apply Z.div_lt_upper_bound; nia).
     lia.
 Qed.
 
@@ -178,17 +178,17 @@ Proof.
   intros W Hk. pose proof (multi_range g k W Hk) as [Hi Hj].
   unfold spec_multi, nnodes in *.
   pose proof (wf_nth g W) as Hn. pose proof (wf_nsc g W) as Hs. pose proof (wf_nr g W) as Hr.
-  destruct (k <? nsc g * nth g) eqn:Hc; [apply Z.ltb_lt in Hc | apply Z.ltb_ge in Hc];
+  destruct (k <? nsc g * ntheta g) eqn:Hc; [apply Z.ltb_lt in Hc | apply Z.ltb_ge in Hc];
     cbn [fst snd] in *; unfold spec_index.
-  - assert (k / nth g < nsc g) by (apply Z.div_lt_upper_bound; nia).
-    destruct (k / nth g <? nsc g) eqn:Hd; [|apply Z.ltb_ge in Hd; lia].
-    rewrite Z.mod_mod by lia. pose proof (Z.div_mod k (nth g) ltac:(lia)). lia.
+  - assert (k / ntheta g < nsc g) by (apply Z.div_lt_upper_bound; nia).
+    destruct (k / ntheta g <? nsc g) eqn:Hd; [|apply Z.ltb_ge in Hd; lia].
+    rewrite Z.mod_mod by lia. pose proof (Z.div_mod k (ntheta g) ltac:(lia)). lia.
   - assert (Hl : 0 < nr g - nsc g) by nia.
-    pose proof (Z.mod_pos_bound (k - nsc g * nth g) (nr g - nsc g) Hl).
-    destruct (nsc g + (k - nsc g * nth g) mod (nr g - nsc g) <? nsc g) eqn:Hd;
+    pose proof (Z.mod_pos_bound (k - nsc g * ntheta g) (nr g - nsc g) Hl).
+    destruct (nsc g + (k - nsc g * ntheta g) mod (nr g - nsc g) <? nsc g) eqn:Hd;
       [apply Z.ltb_lt in Hd; lia|].
-    rewrite (Z.mod_small _ (nth g)) by lia.
-    pose proof (Z.div_mod (k - nsc g * nth g) (nr g - nsc g) ltac:(lia)). lia.
+    rewrite (Z.mod_small _ (ntheta g)) by lia.
+    pose proof (Z.div_mod (k - nsc g * ntheta g) (nr g - nsc g) ltac:(lia)). lia.
 Qed.
 
 Theorem index_injective (g : grid) (i j i' j' : Z) :
@@ -199,24 +199,24 @@ Proof.
 Qed.
 
 Theorem index_periodic (g : grid) (i j m : Z) :
-  wf g -> spec_index g i (j + m * nth g) = spec_index g i j.
+  wf g -> spec_index g i (j + m * ntheta g) = spec_index g i j.
 Proof.
   intros W. unfold spec_index. rewrite Z.mod_add by (pose proof (wf_nth g W); lia). reflexivity.
 Qed.
 
 (* neighbour queries of the unoptimised API agree with wrap(j +- 1) *)
 Theorem nb_theta_consistent (g : grid) (j : Z) :
-  wf g -> 0 <= j < nth g ->
+  wf g -> 0 <= j < ntheta g ->
   nb_theta_m1 g j = spec_wrap g (j - 1) /\ nb_theta_p1 g j = spec_wrap g (j + 1).
 Proof.
   intros W Hj. unfold nb_theta_m1, nb_theta_p1, spec_wrap.
   pose proof (wf_nth g W) as Hn. split.
   - destruct (j - 1 <? 0) eqn:Hc; [apply Z.ltb_lt in Hc | apply Z.ltb_ge in Hc].
-    + replace (j - 1) with ((j - 1 + nth g) + (-1) * nth g) at 2 by lia.
+    + replace (j - 1) with ((j - 1 + ntheta g) + (-1) * ntheta g) at 2 by lia.
       rewrite Z.mod_add by lia. symmetry; apply Z.mod_small; lia.
     + symmetry; apply Z.mod_small; lia.
-  - destruct (j + 1 >=? nth g) eqn:Hc; [apply Z.geb_le in Hc | rewrite Z.geb_leb in Hc; apply Z.leb_gt in Hc].
-    + replace (j + 1) with ((j + 1 - nth g) + 1 * nth g) at 2 by lia.
+  - destruct (j + 1 >=? ntheta g) eqn:Hc; [apply Z.geb_le in Hc | rewrite Z.geb_leb in Hc; apply Z.leb_gt in Hc].
+    + replace (j + 1) with ((j + 1 - ntheta g) + 1 * ntheta g) at 2 by lia.
       rewrite Z.mod_add by lia. symmetry; apply Z.mod_small; lia.
     + symmetry; apply Z.mod_small; lia.
 Qed.
